@@ -60,7 +60,6 @@ class Binding(object):
 
         """
         self.wsdl = wsdl
-        self.multiref = MultiRef()
 
     def schema(self):
         return self.wsdl.schema
@@ -153,7 +152,9 @@ class Binding(object):
         soapbody = soapenv.getChild("Body", envns)
         if soapbody is None:
             soapbody = soapenv.getChild("Body", envns12)
-        soapbody = self.multiref.process(soapbody)
+        # A binding is shared by all invocations made through a service (and
+        # by all threads): multiref resolution state must be per reply.
+        soapbody = MultiRef().process(soapbody)
         nodes = self.replycontent(method, soapbody)
         rtypes = self.returned_types(method)
         if len(rtypes) > 1:
